@@ -20,6 +20,9 @@ var (
 	// ErrInvalidTimestamp is returned by Encode if a Index with a Entry with
 	// negative timestamp values
 	ErrInvalidTimestamp = errors.New("negative timestamps are not allowed")
+	// ErrInvalidObjectID is returned by Encode if an entry's object id has
+	// not the size of the index's hash.
+	ErrInvalidObjectID = errors.New("object id size does not match the index")
 )
 
 // An Encoder writes an Index to an output stream.
@@ -117,6 +120,11 @@ func (e *Encoder) encodeEntry(idx *Index, entry *Entry) error {
 		return err
 	}
 
+	id, err := e.entryID(entry)
+	if err != nil {
+		return err
+	}
+
 	flags := uint16(entry.Stage&0x3) << 12
 	if l := len(entry.Name); l < nameMask {
 		flags |= uint16(l)
@@ -136,7 +144,7 @@ func (e *Encoder) encodeEntry(idx *Index, entry *Entry) error {
 		entry.UID,
 		entry.GID,
 		entry.Size,
-		entry.Hash.Bytes(),
+		id,
 	)
 
 	if entry.IntentToAdd || entry.SkipWorktree {
@@ -168,6 +176,24 @@ func (e *Encoder) encodeEntry(idx *Index, entry *Entry) error {
 	}
 
 	return err
+}
+
+// entryID returns the object name of an entry as it is written: exactly as
+// many bytes as the index's hash has. The padding that follows an entry is
+// computed from that size, so a name of another width would make the whole
+// file undecodable. An unset (zero) id is the null id of any width.
+func (e *Encoder) entryID(entry *Entry) ([]byte, error) {
+	id := entry.Hash.Bytes()
+	if len(id) == e.hash.Size() {
+		return id, nil
+	}
+
+	if !entry.Hash.IsZero() {
+		return nil, fmt.Errorf("%w: entry %q has a %d-byte object id, the index uses %d",
+			ErrInvalidObjectID, entry.Name, len(id), e.hash.Size())
+	}
+
+	return make([]byte, e.hash.Size()), nil
 }
 
 func (e *Encoder) encodeEntryName(entry *Entry) error {
